@@ -158,13 +158,15 @@ Proof. exact tiebreak_by_id_needed. Qed.
     selects, [tc] is what the application's ResolveTotalCount answers.  The result is the outcome
     (argument error / field null with an error / crash / page with page info and total count), the
     range queries actually issued, and the number of ResolveTotalCount calls.  [F = true]: the
-    fourth repair (typed nil error values) is present.  [hand ps i = xp (ps i)] forgets the errors,
-    [with_total] adds totalCount to an outcome of the error-free transcription [conn]. *)
+    fourth and fifth repair (typed nil error values, answers that are not slices) are present.
+    [hand ps i = xp (ps i)] forgets the errors, [with_total] adds totalCount to an outcome of the
+    error-free transcription [conn].  [no_bad ps]: no call answers with a value that is neither nil
+    nor a slice ([BadValue]; those answers have their own theorems at the end of this section). *)
 
 (** As long as no issued call fails, the connection with errors and totalCount IS the error-free
     transcription (so every theorem above carries over to it, for every mixture of synchronous and
     promised results), with totalCount = the application's answer. *)
-Theorem C16_time_no_failure_is_conn : forall V g ps s tc a,
+Theorem C16_time_no_failure_is_conn : forall V g ps s tc a, no_bad ps ->
   winner ps (range_queries V (cur_of (a_after a)) (cur_of (a_before a)) (a_from a) (a_to a) (limit_of a)) = None ->
   xconn V true g ps s tc a = with_total s tc (conn V g (hand ps) (want_info s) a).
 Proof. exact xconn_no_failure. Qed.
@@ -173,7 +175,7 @@ Proof. exact xconn_no_failure. Qed.
     whatever the other queries returned, synchronously or through promises: the field is null with
     the error [winner] names and only the queries up to a synchronous failure were issued.  (In the
     lazy first/last = 0 path a failing totalCount may be reported beside it.) *)
-Theorem C16_time_getter_error_fails_field : forall V g ps s tc a id n,
+Theorem C16_time_getter_error_fails_field : forall V g ps s tc a id n, no_bad ps ->
   arg_error a = false -> fetches s a = true ->
   winner ps (range_queries V (cur_of (a_after a)) (cur_of (a_before a)) (a_from a) (a_to a) (limit_of a)) = Some (id, n) ->
   exists more tcn,
@@ -203,7 +205,7 @@ Theorem C16_time_winner_complete : forall ps qs,
 Proof. exact winner_complete. Qed.
 
 (** No partial page: a page is returned only if none of the issued calls failed. *)
-Theorem C16_time_page_means_no_failure : forall g ps s tc a es info total issued tcn,
+Theorem C16_time_page_means_no_failure : forall g ps s tc a es info total issued tcn, no_bad ps ->
   xconn current true g ps s tc a = (XPage es info total, issued, tcn) ->
   forall j, (j < length issued)%nat -> call_fails (ps j) = None.
 Proof. exact xconn_page_no_failure. Qed.
@@ -215,7 +217,7 @@ Proof. exact xconn_page_no_failure. Qed.
     the field with its error. *)
 Theorem C16_time_result_with_total : forall E g ps s tc a,
   honours g E -> NoDup E -> representable E -> args_ok a = true ->
-  (forall j, call_fails (ps j) = None) ->
+  no_bad ps -> (forall j, call_fails (ps j) = None) ->
   match total_err_of s tc with
   | [] => exists info, fst (fst (xconn current true g ps s tc a)) = XPage (TimeRef E a) info (total_of s tc)
                        /\ snd (xconn current true g ps s tc a) = Some (tc_calls_of s)
@@ -239,6 +241,34 @@ Theorem C16_time_join_error_needs_only_prefix : forall prs sched k id,
   (forall j, (j <= k)%nat -> In j sched) ->
   join_sched prs sched = JErr id.
 Proof. exact join_error_needs_only_prefix. Qed.
+
+(** An answer that is neither nil nor a slice (a string, a map, a promise that a promise resolved
+    to) from a call that is issued, no real error anywhere: the field is null with the library's
+    "non-slice" error, synchronously or through a promise. *)
+Theorem C16_time_non_slice_answer_is_an_error : forall V g ps s tc a k,
+  arg_error a = false -> fetches s a = true ->
+  (forall j, call_fails (ps j) = None) ->
+  (k < length (range_queries V (cur_of (a_after a)) (cur_of (a_before a)) (a_from a) (a_to a) (limit_of a)))%nat ->
+  xerr (ps k) = BadValue ->
+  exists more, fst (fst (xconn V true g ps s tc a)) = XFieldError (ENonSlice :: more).
+Proof. exact xconn_bad_value. Qed.
+
+(** Whatever the getter answers (errors, nil, typed nil, non-slices, promises of any of these) and
+    whatever ResolveTotalCount answers: the adapter never crashes. *)
+Theorem C16_time_no_crash_whatever_the_getter_answers : forall g ps s tc a,
+  fst (fst (xconn current true g ps s tc a)) <> XPanic.
+Proof. exact xconn_no_panic. Qed.
+
+(** The fifth repaired defect: before it such an answer crashed — through a promise inside
+    [join]'s goroutine, which ends the process. *)
+Theorem C16_non_slice_panic_before_fix :
+  exists g a,
+    args_ok a = true /\
+    fst (fst (xconn current false g bad_promise s_info (TCVal 0) a)) = XPanic /\
+    fst (fst (xconn current false g bad_sync s_info (TCVal 0) a)) = XPanic /\
+    fst (fst (xconn current true g bad_promise s_info (TCVal 0) a)) = XFieldError [ENonSlice] /\
+    fst (fst (xconn current true g bad_sync s_info (TCVal 0) a)) = XFieldError [ENonSlice].
+Proof. exact non_slice_panic_before_fix. Qed.
 
 (** The fourth repaired defect: a getter returning a typed nil error value synchronously failed
     the field with a made-up error, while the same answer through a promise gave the page. *)
@@ -379,3 +409,6 @@ Print Assumptions C16_range_queries_at_time_level_exact.
 Print Assumptions C16_cursor_denotes_edge_time_iff_int64.
 Print Assumptions C16_cursor_order_refuted_outside_int64.
 Print Assumptions C16_time_cost_bounds_page.
+Print Assumptions C16_time_non_slice_answer_is_an_error.
+Print Assumptions C16_time_no_crash_whatever_the_getter_answers.
+Print Assumptions C16_non_slice_panic_before_fix.
